@@ -621,6 +621,48 @@ def runGlue (f : List String) (impl : String) : String :=
     | _, _, _, _, _, _, _, _, _, _, _, _, _, _ => "bad-case"
   | _ => "bad-case"
 
+/-! ### `glueb …`: `Session::batch` with a chosen NUMBER of statements (the session's own guard on the count, in front of
+the serializer's; see `harness/src/c09/sessglue.rs`) -/
+
+/-- FNV-1a (64 bit) of the body: the two sides compare a 3 MB BATCH body byte-exactly through its length and digest. -/
+def fnv1a (b : Bytes) : UInt64 :=
+  b.foldl (fun h x => (h ^^^ x.toUInt64) * 0x100000001b3) 0xcbf29ce484222325
+
+/-- `0d:<consistency>:<serial|->:<tracing bit>:<timestamp|->:n=<statements>:len=<body length>:fnv=<digest>`.  The
+option fields and the count are the ones `session_batch_glue` proves the body reads back to (the independent Lean parser
+re-measures the remaining input per field and is quadratic on a 65535-statement body, so it is not run here; the Rust side
+of the line is produced by the mock node's own parser, and length + digest tie the whole body byte for byte). -/
+def glueBigBatchFrame (body : Bytes) (n : Nat) (c : Consistency) (sc : Option SerialConsistency) (ts : Option Int64)
+    (tracing : Bool) : String :=
+  hex2 Generated.requestOpcode_Batch ++ ":" ++ toString (consistencyCode c) ++ ":" ++
+    (match sc with | some s => toString (serialConsistencyCode s) | none => "-") ++ ":" ++
+    (if tracing then "1" else "0") ++ ":" ++ (match ts with | some v => toString v.toInt | none => "-") ++
+    ":n=" ++ toString n ++ ":len=" ++ toString body.length ++ ":fnv=" ++ toString (fnv1a body).toNat
+
+def runGlueB (f : List String) (impl : String) : String :=
+  if impl.startsWith "e2e-skip" then impl
+  else
+  match f with
+  | [n, mode, via, c, ser, ts, tr, ids] =>
+    match n.toNat?, cfgToks [c, ser, ts, tr], (ids.splitOn ",").mapM bytesTok with
+    | some n, some cfg, some [id1, _, _, _] =>
+      if n > 200000 || !(["u", "p", "m"].contains mode) || !(via == "s" || (via == "c" && mode == "p")) then "bad-case"
+      else
+        let sd : ExecProfile := ⟨.localQuorum, some .localSerial⟩
+        let conn : ConnCtx := { defaultConsistency := .localQuorum, genTimestamp := none, metadataIdExt := false }
+        let isPrep (i : Nat) : Bool := mode == "p" || (mode == "m" && i % 2 == 0)
+        let stmts : List GlueStmt := (List.range n).map (fun i => if isPrep i then .prepared id1 2 else .unprepared text2)
+        let rows : List (List RawVal) :=
+          (List.range n).map (fun i => if isPrep i then [.val [1, 2], .val [0, 0, 0, 5]] else [])
+        match sessionBatch (fun _ => ([], 0)) .unlogged stmts rows cfg none sd conn with
+        | .ok body =>
+          "ok frames=1 " ++ glueBigBatchFrame body stmts.length (sessionConsistency cfg (chosenProfile none sd))
+            (sessionSerial cfg (chosenProfile none sd)) (requestTimestamp cfg conn) cfg.tracing
+        | .error (.tooManyQueries k) => "err:TooManyQueries:" ++ toString k ++ " frames=0"
+        | .error (.frame _) => "err:refused frames=0"
+    | _, _, _ => "bad-case"
+  | _ => "bad-case"
+
 end Sess
 
 def run (case impl : String) : String :=
@@ -631,6 +673,7 @@ def run (case impl : String) : String :=
     | none => "bad-case"
   | "sess" :: fields => runSess fields impl
   | "glue" :: fields => runGlue fields impl
+  | "glueb" :: fields => runGlueB fields impl
   | ["decomp", comp, body] =>
     match compTok comp, bytesTok body with
     | some (some c), some b => runDecomp c b impl
